@@ -1,3 +1,4 @@
 pub mod parsers;
 pub mod reader;
+pub mod scan;
 pub mod writer;
